@@ -453,4 +453,12 @@ def fetchScanlineYv12Loop (m : Mem) (bits rowstride height line : Nat) : (x widt
 A/R/G/B bit counts: `PIXMAN_FORMAT_VIS` is 0 and the value is expanded as a8r8g8b8) -/
 def genericFloatOf (format argb : Nat) : Argb := expandToFloat format argb
 
+/-! ### which build of the access functions an image gets
+
+`_pixman_bits_image_setup_accessors`: the `PIXMAN_FB_ACCESSORS` recompilation (pixman-access-accessors.c, every
+`READ`/`WRITE` through the user callbacks) is selected as soon as *one* callback is installed; the same test clears
+`FAST_PATH_NO_ACCESSORS` (pixman-image.c) and picks `pixman_rasterize_edges_accessors` (pixman-edge.c).  The two
+builds are the same source, so the model has one `READ`/`WRITE`; this function is the selection only. -/
+def usesAccessorBuild (readFunc writeFunc : Bool) : Bool := readFunc || writeFunc
+
 end Pixman.Model.Format
